@@ -317,6 +317,7 @@ macro_rules! kind_search {
             let trace: RefCell<Vec<(usize, usize, u32)>> = RefCell::new(vec![]);
             let root = st.handle(spec.root, &spec.via);
             let tgt = spec.target;
+            let tgt_other = spec.target.map(|t| t + 1);
             {
                 run_search_modes!(spec, out, trace, st);
                 match spec.kind.as_str() {
@@ -328,7 +329,7 @@ macro_rules! kind_search {
                         macro_rules! cfg {
                             ($bb:ident, $steps:expr) => {
                                 for step in $steps {
-                                    $bb = match *step { "T" => if spec.tr { $bb.transpose() } else { $bb }, _ => match &tgt { Some(t) => $bb.target(t), None => $bb } };
+                                    $bb = match *step { "T" => if spec.tr { if spec.variant / 24 % 2 == 1 { $bb.transpose().transpose() } else { $bb.transpose() } } else { $bb }, _ => match &tgt { Some(t) => if spec.variant / 48 % 2 == 1 { $bb.target(tgt_other.as_ref().unwrap()).target(t) } else { $bb.target(t) }, None => $bb } };
                                 }
                             };
                         }
@@ -352,8 +353,8 @@ macro_rules! kind_search {
                                     $bb = match *step {
                                         // variants 12..23: the opposite priority is set first (the last call wins)
                                         "P" => if spec.kind == "pfs-max" { if spec.variant / 12 % 2 == 1 { $bb.min().max() } else { $bb.max() } } else if spec.variant / 12 % 2 == 1 { $bb.max().min() } else { $bb.min() },
-                                        "T" => if spec.tr { $bb.transpose() } else { $bb },
-                                        _ => match &tgt { Some(t) => $bb.target(t), None => $bb },
+                                        "T" => if spec.tr { if spec.variant / 24 % 2 == 1 { $bb.transpose().transpose() } else { $bb.transpose() } } else { $bb },
+                                        _ => match &tgt { Some(t) => if spec.variant / 48 % 2 == 1 { $bb.target(tgt_other.as_ref().unwrap()).target(t) } else { $bb.target(t) }, None => $bb },
                                     };
                                 }
                             };
@@ -390,6 +391,7 @@ macro_rules! kind_search {
             let trace: RefCell<Vec<(usize, usize, u32)>> = RefCell::new(vec![]);
             let root = st.handle(spec.root, &spec.via);
             let tgt = spec.target;
+            let tgt_other = spec.target.map(|t| t + 1);
             {
                 run_search_modes!(spec, out, trace, st);
                 match spec.kind.as_str() {
@@ -409,7 +411,7 @@ macro_rules! kind_search {
                         macro_rules! cfg {
                             ($bb:ident, $steps:expr) => {
                                 for step in $steps {
-                                    $bb = match *step { "P" => if spec.kind == "pfs-max" { if spec.variant / 12 % 2 == 1 { $bb.min().max() } else { $bb.max() } } else if spec.variant / 12 % 2 == 1 { $bb.max().min() } else { $bb.min() }, _ => match &tgt { Some(t) => $bb.target(t), None => $bb } };
+                                    $bb = match *step { "P" => if spec.kind == "pfs-max" { if spec.variant / 12 % 2 == 1 { $bb.min().max() } else { $bb.max() } } else if spec.variant / 12 % 2 == 1 { $bb.max().min() } else { $bb.min() }, _ => match &tgt { Some(t) => if spec.variant / 48 % 2 == 1 { $bb.target(tgt_other.as_ref().unwrap()).target(t) } else { $bb.target(t) }, None => $bb } };
                                 }
                             };
                         }
@@ -842,7 +844,7 @@ macro_rules! ext_mod {
                         if spec.script.is_some() {
                             shown.push_str(&format!(" res=[{}]", sres.into_inner().join(",")));
                         }
-                        if DIRECTED && !ctx.quiet && ctx.oracles.iter().any(|o| o == "c08") && !spec.dflt && !spec.mode.split('+').any(|m| stage_mutation(m).is_some()) {
+                        if DIRECTED && !ctx.quiet && ctx.oracles.iter().any(|o| o == "c08") && !spec.dflt && spec.script.is_none() && !spec.mode.split('+').any(|m| stage_mutation(m).is_some()) {
                             // metamorphic: transpose() on G == the same search without it on the edge-reversed graph
                             let rev = reversed(st, spec.tr);
                             let mut spec2 = spec.clone();
